@@ -66,10 +66,37 @@ def c19_1(ctx):
         out.append(ctx.ok(spec, "checksum is hash256(payload)[:4] of the payload that is returned", hs[0], mod, key="cs-over-payload"))
     else:
         out.append(ctx.bad(spec, "checksum is not computed over the returned payload", fn, mod, key="cs-over-payload"))
+    if any(r.status != "ok" for r in out):
+        # the same clauses are decided by evaluation (C19.17: every single-byte corruption and truncation of an envelope; the reading of the guards
+        # above is the fallback for spellings it does not recognise)
+        cells = _envelope_cells(ctx)
+        if cells and all(r.status == "ok" for r in cells):
+            return [ctx.ok(spec, "magic, checksum and payload checks decided by the envelope cells (C19.17); the guards are not in the form this rule reads", fn, mod, key=k_)
+                    for k_ in ("magic", "checksum", "cs-over-payload")]
     return out
 
 
+def _envelope_cells(ctx):
+    if not hasattr(ctx, "_c19_17"):
+        ctx._c19_17 = _c19_17(ctx)
+    return ctx._c19_17
+
+
 def c19_2(ctx):
+    spec = "network:NetworkEnvelope.parse"
+    try:
+        out = _c19_2_struct(ctx)
+    except AnalysisError as e:
+        out = [ctx.err(spec, str(e))]
+    if any(r.status != "ok" for r in out):
+        cells = _envelope_cells(ctx)
+        if cells and all(r.status == "ok" for r in cells):
+            mod, fn = rl.get(ctx, spec)
+            return [ctx.ok(spec, "every truncation of an envelope is rejected: decided by the envelope cells (C19.17); the length check is not in the form this rule reads", fn, mod, key="short-payload")]
+    return out
+
+
+def _c19_2_struct(ctx):
     spec = "network:NetworkEnvelope.parse"
     mod, fn = rl.get(ctx, spec)
     cfg = cfg_of(fn)
@@ -135,7 +162,7 @@ def c19_3(ctx):
         out.append(ctx.ok(wspec, "length field = len(payload), checksum = hash256(payload)[:4]", wf, wm, key="len-cs"))
     else:
         out.append(ctx.bad(wspec, "length / checksum fields are not len(payload) / hash256(payload)[:4]: %s" % wt_txt, wf, wm, key="len-cs"))
-    return out
+    return rl.defer(ctx, out, lambda: _envelope_cells(ctx), "decided by the envelope cells (C19.17: every network × command length × payload length serialises to the protocol layout and parses back); the writer / reader are not in the form the layout executor reads")
 
 
 def c19_4(ctx):
@@ -388,6 +415,10 @@ def c19_16(ctx):
 
 
 def c19_17(ctx):
+    return _envelope_cells(ctx)
+
+
+def _c19_17(ctx):
     """the envelope codec evaluated: (a) serialize for the four networks × every command length 0..12 × payload lengths on both sides of the
     compact-size and of short-read boundaries equals magic ‖ command zero-padded to 12 ‖ length (4 LE) ‖ sha256d(payload)[:4] ‖ payload, and
     parse gives the same command and payload back; (b) every single-byte corruption (three bit patterns per byte) of a sample envelope and
@@ -475,6 +506,18 @@ def c19_17(ctx):
                     break
                 except Raised:
                     pass
+        if not bad:
+            # an envelope of one network read under another network is refused (all ordered pairs)
+            for a in MAGICS:
+                for b in MAGICS:
+                    if a == b or bad:
+                        continue
+                    m += 1
+                    try:
+                        Evaluator(ctx.repo, max_steps=4000000).call(spec_p, [FileStandIn(ref(a, b"ping", b"\x01" * 8))], kwargs={"network": b}, self_obj=C)
+                        bad = "a well-formed %s envelope is accepted when the %s network was asked for" % (a, b)
+                    except Raised:
+                        pass
         ctx.count("cells", m)
         out.append(ctx.bad(spec_p, bad, fn, mod, key="envelope-cells:corruption") if bad else
                    ctx.ok(spec_p, "%d corruptions / truncations of a sample envelope: magic, length, checksum and payload changes and every truncation are refused" % m, fn, mod, key="envelope-cells:corruption"))
